@@ -20,8 +20,16 @@ func Exec(cursor store.Cursor, expr *grammar.Grammar, settings ...ContextApply) 
 		i(&contextSettings)
 	}
 
+	// Absolute location paths start at the root node of the tree that
+	// contains the context node, wherever the query is started from.
+	root := cursor
+
+	for root.Pos() != 0 {
+		root = root.Parent()
+	}
+
 	context := &exprContext{
-		root:             cursor,
+		root:             root,
 		result:           Result(NodeSet{cursor}),
 		contextPosition:  0,
 		builtinFunctions: builtinFunctions,
